@@ -405,6 +405,8 @@ SERIES_THEOREMS = {'series_sin_eq', 'series_sinh_eq', 'series_cos_eq', 'series_c
 
 PARSER_THEOREMS = {'parser_step_eq'}
 
+PRINTER_THEOREMS = {'printer_str_eq'}
+
 MISC_THEOREMS = {'misc_mvarray_folds_eq', 'misc_blademap_eq', 'misc_frame_eq'}
 
 QUAT_THEOREMS = {'quat_q2m_eq', 'quat_m2q_eq', 'quat_rotor_eq'}
@@ -424,6 +426,7 @@ TRANSLATORS = [   # (script, theorems it generates (None = everything else), mod
     ('numba2lean.py', NUMBA_THEOREMS, ['Model', 'Proofs.NumbaEq']),
     ('series2lean.py', SERIES_THEOREMS, ['Model']),
     ('parser2lean.py', PARSER_THEOREMS, ['Model']),
+    ('printer2lean.py', PRINTER_THEOREMS, ['Model']),
     ('misc2lean.py', MISC_THEOREMS, ['Model', 'Proofs.BladeMapP', 'Proofs.Recip']),
     ('shipped2lean.py', SHIP_THEOREMS, ['Proofs.Shipped']),
     ('quat2lean.py', QUAT_THEOREMS, ['Proofs.Quat']),
